@@ -241,13 +241,13 @@ def scrutinees(c):
     return out
 
 
-def closure_tails(c_after, outer_ints):
+def closure_tails(c_after, outer_ints, pn="p"):
     """Result expressions of a closure body: the free default adds the parameter to the nearest captured Int."""
     ie = int_exprs(c_after)
-    cap = [v for v in c_after.ints if v in outer_ints]
+    cap = [v for v in c_after.ints if v in outer_ints and v != pn]
     if not cap:
         return ie
-    dflt = B(V("p"), "+", V(cap[0]))
+    dflt = B(V(pn), "+", V(cap[0]))
     return [(dflt, 0)] + [(e, max(1, ce)) for e, ce in ie if e != dflt]
 
 
@@ -476,18 +476,21 @@ class Gen:
                         add(("Match", scrut, [(p1, b1), (p2, b2)]), 1 + cs + k1 + k2)
         # ---- closure
         if c.g is None and c.fn != "g":
-            cb = c._replace(ints=("p",) + tuple(v for v in c.ints if v != "p"), own=frozenset(["p"]), in_loop=False, fn="g", rec=False,
-                            g=None, depth=c.depth - 1)
-            outer = set(c.ints) | {"l", "s"}
-            for stmts, cost, c_after, jumped in self.seqs(cb, budget - 2, 2):
-                tails = [(None, 0)] if jumped else closure_tails(c_after, set(c.ints))
-                for tail, ct in tails:
-                    if 2 + cost + ct > budget:
-                        continue
-                    body = list(stmts) + ([tail] if tail is not None else [])
-                    captured = frozenset(var_names(body, set()) & outer)
-                    add(("Let", ("Sym", "g"), None, ("Lambda", [("p", None)], None, body)), 2 + cost + ct,
-                        c._replace(g=captured, frozen=c.frozen | captured))
+            # the parameter is `p`, or (one unit dearer) has the name of a variable of the enclosing scope, which it then shadows
+            # inside the closure while the closure still captures that variable's frame
+            for pn, extra in [("p", 0)] + ([(c.ints[0], 1)] if c.ints and c.ints[0] != "p" else []):
+                cb = c._replace(ints=(pn,) + tuple(v for v in c.ints if v != pn), own=frozenset([pn]), in_loop=False, fn="g", rec=False,
+                                g=None, depth=c.depth - 1)
+                outer = set(c.ints) | {"l", "s"}
+                for stmts, cost, c_after, jumped in self.seqs(cb, budget - 2 - extra, 2):
+                    tails = [(None, 0)] if jumped else closure_tails(c_after, set(c.ints), pn)
+                    for tail, ct in tails:
+                        if 2 + extra + cost + ct > budget:
+                            continue
+                        body = list(stmts) + ([tail] if tail is not None else [])
+                        captured = frozenset(var_names(body, set()) & outer)
+                        add(("Let", ("Sym", "g"), None, ("Lambda", [(pn, None)], None, body)), 2 + extra + cost + ct,
+                            c._replace(g=captured, frozen=c.frozen | captured))
         return out
 
     # ------------------------------------------------------------------ whole programs
